@@ -214,7 +214,13 @@ func readLeaf(g *typeGraph, p tPath, m proto.Message) (reflect.Value, error) {
 	cur := reflect.ValueOf(m)
 	for _, s := range p.Steps {
 		for cur.Kind() == reflect.Ptr || cur.Kind() == reflect.Interface {
+			if cur.IsNil() {
+				return reflect.Value{}, fmt.Errorf("path not present: nil")
+			}
 			cur = cur.Elem()
+		}
+		if cur.Kind() != reflect.Struct || cur.Type() != g.Types[s.Ty].rt {
+			return reflect.Value{}, fmt.Errorf("path not present: %s where %s was expected", cur.Type(), g.Types[s.Ty].Go)
 		}
 		f := g.Types[s.Ty].Fields[s.Pos]
 		fv := cur.Field(f.Idx)
@@ -240,13 +246,22 @@ func readLeaf(g *typeGraph, p tPath, m proto.Message) (reflect.Value, error) {
 		}
 		switch fv.Kind() {
 		case reflect.Slice:
+			if fv.Len() == 0 {
+				return reflect.Value{}, fmt.Errorf("path not present: empty %s", f.Go)
+			}
 			fv = fv.Index(0)
 		case reflect.Map:
+			if fv.Len() == 0 {
+				return reflect.Value{}, fmt.Errorf("path not present: empty %s", f.Go)
+			}
 			fv = fv.MapIndex(fv.MapKeys()[0])
 		}
 		cur = fv
 	}
 	for cur.Kind() == reflect.Ptr || cur.Kind() == reflect.Interface {
+		if cur.IsNil() {
+			return reflect.Value{}, fmt.Errorf("path not present: nil")
+		}
 		cur = cur.Elem()
 	}
 	return cur.Field(g.Types[p.LeafTy].Fields[p.LeafPos].Idx), nil
